@@ -62,7 +62,7 @@ PART = {
                 "public signature corrupted/absent/foreign, public identity replaced, scheme name changed in public/private/both, group without "
                 "the node, share value/commit corrupted, private key truncated/corrupted, canary) each through daemon start (LoadBeaconsFromDisk), "
                 "control-API LoadBeacon on a running daemon (+ status/identity/group requests naming it) and key.SelfSignAll, with returned errors, "
-                "gRPC error strings, log sinks, stdout and stderr scanned for the scalars of the ORIGINAL files; a syscall-level (strace) replay of "
+                "gRPC error strings, log sinks, stdout and stderr scanned for the scalars of the ORIGINAL files; an 'unreadable DKG record' family (the dkg.db of a member that holds shares of two epochs is damaged: unknown scheme / threshold above the nodes / trailing garbage; a daemon started on it is asked through start-up, DKGStatus, commands, status and a peer's gossip packets); a syscall-level (strace) replay of "
                 "key/share/dkg.db writes; "
                 "every node's secret scalars (long-term key, share of every finished epoch) are searched in raw, reversed, hex, base64 (3 "
                 "alignments), decimal and Go byte-slice encodings in every protobuf message seen by client interceptors, HTTP bodies+headers, the "
